@@ -200,3 +200,22 @@ PROPS["C06"] = {
     "outside": ["H3 (bit-identical state transition on two replicas) is not built", "size-budget arithmetic of MaxDataBytes", "evidence admissibility inside the block (C11)", "sub-second timestamps"],
     "timeout_quick": 420, "timeout_thorough": 1200,
 }
+
+PROPS["C09"] = {
+    "files": ["light/verifier.go", "light/client.go", "light/detector.go", "types/validator_set.go"],
+    "groups": [
+        {"dir": "light",
+         "quick": ["VP_C09_Verify_adjacent", "VP_C09_Verify_nonadjacent", "VP_C09_TrustingAdversarial_m4_n3", "VP_C09_TrustingAdversarial_m7_n3",
+                   "VP_C09_Detector_w1", "VP_C09_Detector_w2", "VP_C09_Detector_w3", "VP_C09_Backwards"],
+         "thorough": ["VP_C09_TrustingAdversarial_m7_n4"]},
+    ],
+    "bounds": {
+        "verifier (H1)": "light.Verify on really signed headers of a 3-validator chain: trusted header at height 2, new header adjacent or two heights later, its time one of {before, equal, +1 s, +50 s} relative to the trusted one, `now` symbolic over 600 s, trusting period 100/300 s, clock drift 0/10 s, new validator set equal to / sharing 2 / sharing 1 member with the trusted set, one perturbation (chain id, validators hash, exactly-2/3 commit, 1/3 commit, height not later) or none: accepted exactly when the rule of the statement holds",
+        "adversarial trusting step": "trusted set of m = 4/7 equal validators, forged light block whose validator list is any n = 3 (thorough 4) entries from the trusted members or strangers (repetitions included), all genuinely signing: accepted only with more than 1/3 of *distinct* trusted members",
+        "detector (H3)": "detectDivergence with w = 1..3 witnesses, each answering {identical block, a different block it cannot back, no response, not found, malformed}, under every goroutine schedule: confirmation only with an identical header; no goroutine left blocked",
+        "backwards (H2)": "client trusting height 3 asked for height 1 (sequential backwards verification), primary answering any of its first 4 requests with a forged self-signed block: whatever is stored at height 1 is the header linked by hash to the trusted one",
+    },
+    "stubs": ["providers = harness objects", "trusted store = real light/store/db on MemDB", "ed25519/sha256 concrete (real); `now` symbolic"],
+    "outside": ["bisection (verifySkipping) beyond single steps", "the HTTP provider", "evidence construction in handleConflictingHeaders beyond the cannot-back case", "symbolic header times (they are hashed and signed: concrete here)"],
+    "timeout_quick": 420, "timeout_thorough": 2400,
+}
